@@ -83,7 +83,50 @@ fn record<K: BoolKind>(d: &mut Dig, what: &str, r: &oxidd::util::AllocResult<K::
     }
 }
 
+/// one large diagram: the disjunction of x_i & x_{i+15} for i < 15 under the order x_0 .. x_29 (about
+/// 2^16 nodes, i.e. more than one page / chunk of every node store): node count, model count and a few
+/// evaluations are configuration-independent
+fn big_suite<K: BoolKind>(threads: u32) {
+    if K::NAME == "zbdd" {
+        // a ZBDD variable is not a single node, so the bottom-up construction below is not constant
+        // time per step there (and exponential without an apply cache)
+        return;
+    }
+    let mref: MRefOf<K> = K::new_manager(1 << 18, 1 << 14, threads);
+    mref.with_manager_exclusive(|m| {
+        m.add_vars(30);
+    });
+    let x: Vec<K::F> = (0..30).map(|v| mref.with_manager_shared(|m| K::F::var(m, v).unwrap())).collect();
+    // built bottom-up with ite(variable above both operands, .., ..) only, which takes constant time with
+    // or without an apply cache: c[S] = OR of x_{15+j} for j in S, then level by level
+    // f_i[S] = ite(x_i, f_{i+1}[S + i], f_{i+1}[S]) for S a subset of {0..i-1}
+    let (t, bot) = mref.with_manager_shared(|m| (K::F::t(m), K::F::f(m)));
+    let mut level: Vec<K::F> = Vec::with_capacity(1 << 15);
+    level.push(bot);
+    for s in 1usize..(1 << 15) {
+        let j = s.trailing_zeros() as usize;
+        let rest = level[s & (s - 1)].clone();
+        level.push(x[15 + j].ite(&t, &rest).unwrap());
+    }
+    for i in (0..15usize).rev() {
+        let next: Vec<K::F> = (0..(1usize << i)).map(|s| x[i].ite(&level[s | (1 << i)], &level[s]).unwrap()).collect();
+        level = next;
+    }
+    let f = level.pop().unwrap();
+    drop(level);
+    let mut cache: oxidd::util::SatCountCache<oxidd::util::num::Saturating<u64>, std::hash::BuildHasherDefault<oxidd::util::FxHasher>> = oxidd::util::SatCountCache::default();
+    let count = f.sat_count(30, &mut cache).0;
+    let mut evals = 0u64;
+    for k in 0..64u64 {
+        let a = k.wrapping_mul(0x9e3779b97f4a7c15) >> 34;
+        evals = (evals << 1) | f.eval((0..30).map(|v| (v, (a >> v) & 1 == 1))) as u64;
+    }
+    let g = f.not().unwrap();
+    println!("big {} node_count {} sat_count {count} evals {evals:016x} not.node_count {} stored {}", K::NAME, f.node_count(), g.node_count(), mref.with_manager_shared(|m| m.num_inner_nodes()));
+}
+
 fn suites<K: Ext>(threads: u32, mism: &mut u64) {
+    big_suite::<K>(threads);
     let n = 3;
     let tabs = model::subset3();
     for order in model::perms(3) {
@@ -182,8 +225,11 @@ fn common_suite<K: BoolKind>(mref: &MRefOf<K>, fns: &[K::F], tabs: &[Tab], o: &s
                 continue;
             }
             let cube = K::build(mref, model::cube_tab(pos, neg, n)).unwrap();
-            for (i, f) in fns.iter().enumerate().step_by(2) {
+            for (i, f) in fns.iter().enumerate() {
                 record::<K>(d, &format!("order {o} restrict({:#x},+{pos},-{neg})", tabs[i]), &f.restrict(&cube), model::restrict(tabs[i], pos, neg, n), mism);
+                if i % 2 == 1 {
+                    continue;
+                }
                 let r = f.pick_cube_dd_set(&cube);
                 if let Ok(h) = &r {
                     let t = K::table(h).unwrap_or(u64::MAX);
@@ -192,6 +238,28 @@ fn common_suite<K: BoolKind>(mref: &MRefOf<K>, fns: &[K::F], tabs: &[Tab], o: &s
                         println!("MISMATCH {} order {o} pick_cube_dd_set({:#x}) = {t:#x}", K::NAME, tabs[i]);
                         *mism += 1;
                     }
+                }
+            }
+        }
+    }
+    // restrictions of ALL 256 functions, cubes in ascending and then in descending order (what an earlier
+    // call left in the apply cache differs)
+    {
+        let all: Vec<K::F> = (0..256u64).map(|t| K::build(mref, t).unwrap()).collect();
+        let mut cubes: Vec<(u32, u32)> = vec![];
+        for pos in 0..8u32 {
+            for neg in 0..8u32 {
+                if pos & neg == 0 {
+                    cubes.push((pos, neg));
+                }
+            }
+        }
+        let back: Vec<(u32, u32)> = cubes.iter().rev().copied().collect();
+        for (pass, list) in [("asc", &cubes), ("desc", &back)] {
+            for &(pos, neg) in list.iter() {
+                let cube = &all[model::cube_tab(pos, neg, n) as usize];
+                for (t, f) in all.iter().enumerate() {
+                    record::<K>(d, &format!("order {o} restrict-{pass}({t:#x},+{pos},-{neg})"), &f.restrict(cube), model::restrict(t as Tab, pos, neg, n), mism);
                 }
             }
         }
